@@ -209,10 +209,13 @@ def decode_arg(a, doc=None, resolve=True):
         if not resolve:
             return a
         return resolve_path_arg(a["$path"], doc)
+    # data paths given as direct items of a list argument / values of a mapping argument are
+    # resolved too (one level, the depth at which the spec language can spell them)
     if type(a) is list:
-        return [decode_static(i) for i in a]
+        return [resolve_path_arg(i["$path"], doc) if (resolve and is_pathref(i)) else decode_static(i) for i in a]
     if type(a) is dict:
-        return {k: decode_static(v) for k, v in a.items()}
+        return {k: (resolve_path_arg(v["$path"], doc) if (resolve and is_pathref(v)) else decode_static(v))
+                for k, v in a.items()}
     return a
 
 
@@ -267,7 +270,7 @@ def eval_leaf_ex(leaf, key, value, doc=None):
     try:
         args = [decode_arg(a, doc) for a in leaf.get("args", [])]
         kwargs = {k: decode_arg(v, doc) for k, v in leaf.get("kwargs", {}).items()}
-    except Undefined:
+    except (Undefined, SingleViolation):
         return SKIP, "skip"
     try:
         if pre == "length":
